@@ -1069,8 +1069,60 @@ func (rn *runner) runRejected(cs caseSpec) {
 	os.RemoveAll(dir)
 }
 
+// runBuildFail: a build whose last shard fails (a document on a branch the repository does not have): buildError is set
+// before Finish installs anything, Finish must remove the temp files of the shards that did succeed, return the
+// error (also when called again), and leave the directory exactly as it was.  Go oracle only; uses the hook
+// index.VerifBuilderState to look at finishedShards / buildError.
+func (rn *runner) runBuildFail(cs caseSpec) {
+	dir := rn.freshDir()
+	t := rn.tpls[cs.Template]
+	copyDir(t.Dir, dir)
+	sc := mkScenario(cs, rn.tpls, dir, 1000+rn.nextDir)
+	opts := index.Options{IndexDir: dir, Parallelism: 1, ShardMax: shardMax, DisableCTags: true, IsDelta: cs.Delta,
+		RepositoryDescription: zoekt.Repository{Name: repoName, ID: repoID,
+			Branches: []zoekt.RepositoryBranch{{Name: "HEAD", Version: f1util.Version(sc.spec.Gen)}}}}
+	opts.SetDefaults()
+	b, err := index.NewBuilder(opts)
+	must(err)
+	for _, d := range sc.spec.Docs {
+		b.Add(index.Document{Name: d.Name, Content: []byte(d.Content), Branches: []string{"HEAD"}})
+	}
+	b.Add(index.Document{Name: "bad.go", Content: []byte(token + " bad"), Branches: []string{"no-such-branch"}})
+	midFinished, _ := index.VerifBuilderState(b)
+	err1 := b.Finish()
+	finished, berr := index.VerifBuilderState(b)
+	err2 := b.Finish()
+	view, why := sc.view(dir)
+	c := gen.Case{Class: "build-fails:" + sc.descr(), Nontrivial: len(midFinished) > 0,
+		Detail: gen.Detail(map[string]any{"spec": cs, "err": fmt.Sprint(err1), "why": why, "finishedBeforeFinish": len(midFinished)})}
+	leftover, changed := "", ""
+	es, _ := os.ReadDir(dir)
+	for _, e := range es {
+		if strings.HasSuffix(e.Name(), ".tmp") {
+			leftover = e.Name()
+		} else if _, ok := t.Tokens[sha(filepath.Join(dir, e.Name()))]; !ok {
+			changed = e.Name()
+		}
+	}
+	tes, _ := os.ReadDir(t.Dir)
+	switch {
+	case err1 == nil:
+		c.Go, c.Key = "Finish returned nil although a shard failed to build", "false-success:build-fails"
+	case err2 == nil || berr == nil:
+		c.Go, c.Key = "buildError is not sticky: a second Finish returned nil", "build-error-not-sticky"
+	case len(finished) != 0:
+		c.Go, c.Key = "finishedShards not emptied by the failing Finish", "finished-shards-kept"
+	case view != "old" || changed != "" || len(es) != len(tes):
+		c.Go, c.Key = "a failed build changed the index directory: "+why+" "+changed+" "+leftover, "failed-build-changed-index"
+	}
+	rn.w.Emit(c)
+	os.RemoveAll(dir)
+}
+
 func (rn *runner) run(cs caseSpec) {
 	switch cs.Mode {
+	case "buildfail":
+		rn.runBuildFail(cs)
 	case "rejected":
 		rn.runRejected(cs)
 	case "stop":
@@ -1196,6 +1248,9 @@ func main() {
 		}
 		for _, k := range []string{"F1", "F2d1", "C", "Cm"} {
 			specs = append(specs, caseSpec{Mode: "rejected", Template: k, NShards: 1, Changed: 1, Seed: r.U64(), ShardMerging: true})
+		}
+		for _, k := range []string{"E", "F2", "F1d1", "C"} {
+			specs = append(specs, caseSpec{Mode: "buildfail", Template: k, NShards: 1 + r.Intn(3), Seed: r.U64(), ShardMerging: true})
 		}
 		for i := 0; i < f.N(14, 150); i++ {
 			specs = append(specs, randomSpec(r, "stop"))
